@@ -1397,6 +1397,16 @@ func DeterminismBundles() []*Case {
 		c.Add(obj("Baz", fld("kind", RefTo(c.Decls[0].(*Decl), ""))))
 		add("same-name-in-sub-directory", a, b, c, sub)
 	}
+	{ // a top-level object named like the request message a method of another file generates
+		a := file("q/v1", "a")
+		req := obj("PingRequest", fld("x", T(TString)))
+		a.Add(req)
+		b := file("q/v1", "b")
+		b.Add(&Service{Name: "Thing", BasePath: "/q/v1", Methods: []*Method{{Name: "Ping", Verb: "POST", Path: "/ping", Request: []*Field{fld("v", T(TString))}, HasResponse: true, Response: []*Field{fld("w", T(TString))}}}})
+		c := file("q/v1", "c")
+		c.Add(obj("User", fld("r", RefTo(req, "")), fld("rs", ArrayOf(RefTo(req, "")))))
+		add("object-named-like-generated-request", a, b, c)
+	}
 	{ // a versioned package below another local package's directory
 		x := file("a/v1", "x")
 		outer := obj("Outer", fld("name", T(TString)))
